@@ -154,12 +154,15 @@ def parse_grammar(src, ctors):
     body = re.sub(r"//[^\n]*", "", body)
     helper_n = [0]
     pos = 0
-    rule_re = re.compile(r"(pub\s+)?(\w+)\s*:\s*([^=]+?)\s*=\s*", re.S)
+    rule_re = re.compile(r"(pub\s+)?(\w+)(<[\w\s,]+>)?\s*:\s*([^=;{}]+?)\s*=(?!>)\s*", re.S)
+    g.macros = {}
+    g.pending = []
+    g.ctors = ctors
     while True:
         m = rule_re.search(body, pos)
         if not m:
             break
-        is_pub, lhs = bool(m.group(1)), m.group(2)
+        is_pub, lhs, params = bool(m.group(1)), m.group(2), m.group(3)
         p = m.end()
         if body[p] == "{":
             e = balanced(body, p)
@@ -174,11 +177,31 @@ def parse_grammar(src, ctors):
             # `;` may occur inside the action only in strings: none in this grammar
             alts = [body[p:e].strip()]
             pos = e + 1
+        if params:
+            # lalrpop macro: instantiated at each use site by substituting the parameters
+            g.macros[lhs] = ([x.strip() for x in params.strip("<>").split(",")], alts)
+            continue
         g.nts.append(lhs)
         if is_pub:
             g.starts.append(lhs)
         for alt in alts:
             parse_alt(g, lhs, alt, ctors, helper_n)
+    # macro instances requested while parsing (may request further instances)
+    done = set()
+    while g.pending:
+        name, mname, args = g.pending.pop()
+        if name in done:
+            continue
+        done.add(name)
+        params, alts = g.macros[mname]
+        if len(params) != len(args):
+            raise EncodingError(f"macro {mname} used with {len(args)} arguments")
+        g.nts.append(name)
+        for alt in alts:
+            inst = alt
+            for prm, arg in zip(params, args):
+                inst = re.sub(rf"\b{prm}\b", arg, inst)
+            parse_alt(g, name, inst, ctors, helper_n)
     return g
 
 
@@ -285,6 +308,13 @@ def expand(g, s, helper_n):
         return h
     if re.match(r"^\w+$", s):
         return s
+    m = re.match(r"^(\w+)<(.+)>$", s, re.S)
+    if m and m.group(1) in getattr(g, "macros", {}):
+        args = [a.strip() for a in split_top(m.group(2).replace("<", "(").replace(">", ")"))]
+        args = [a.replace("(", "<").replace(")", ">") for a in args]
+        name = "__M_" + re.sub(r"\W+", "_", s)
+        g.pending.append((name, m.group(1), args))
+        return name
     raise EncodingError(f"grammar symbol not understood: {s!r}")
 
 
@@ -318,7 +348,7 @@ def parse_action(g, lhs, syms, names, selected, action, ctors, alt):
         return ("pass", i)
     a = action.strip()
     # Ok(helper(s)?) literal leaves
-    m = re.match(r"^Ok\((\w+)\((\w+)\)\?\)$", a)
+    m = re.match(r"^Ok\((\w+)\((\w+|<>)\)\?\)$", a)
     if m and m.group(1) in LEAF_HELPERS and arg_of(m.group(2)) is not None:
         return ("leaf", LEAF_HELPERS[m.group(1)], arg_of(m.group(2)))
     m = re.match(r"^Ok\(RuleBuilder::parse\((\w+),\s*(\w+)\)\?\)$", a)
@@ -338,6 +368,19 @@ def parse_action(g, lhs, syms, names, selected, action, ctors, alt):
     m = re.match(r"^Expr::(Vec|Map)\((\w+)\.into_iter\(\)\.chain\((\w+)\)\.collect\(\)\)$", a)
     if m and arg_of(m.group(2)) is not None and arg_of(m.group(3)) is not None:
         return ("node", m.group(1), [("elems", arg_of(m.group(2))), ("elems", arg_of(m.group(3)))])
+    # a list built elsewhere (e.g. by a macro): Expr::Vec(<>) / Expr::Map(<>.into_iter().collect())
+    m = re.match(r"^Expr::(Vec|Map)\((\w+|<>)(?:\.into_iter\(\)\.collect\(\))?\)$", a)
+    if m and arg_of(m.group(2)) is not None:
+        return ("node", m.group(1), [("elems", arg_of(m.group(2)))])
+    # list concatenation: init.into_iter().chain(last).collect()
+    m = re.match(r"^(\w+)\.into_iter\(\)\.chain\((\w+)\)\.collect\(\)$", a)
+    if m and arg_of(m.group(1)) is not None and arg_of(m.group(2)) is not None:
+        return ("list", [("elems", arg_of(m.group(1))), ("elems", arg_of(m.group(2)))])
+    # multi-statement action converting a numeric index
+    mu = re.search(r"usize::from_str\((\w+)\)", a)
+    mi = re.search(r"Expr::index\((\w+),\s*Index::from\(", a)
+    if a.startswith("{") and mu and mi and arg_of(mu.group(1)) is not None and arg_of(mi.group(1)) is not None:
+        return ("node", "IndexNum", [("sub", arg_of(mi.group(1))), ("tok", arg_of(mu.group(1)))])
     # index: Expr::index(l, Index::from(r)) / Ok(Expr::index(l, Index::from(usize::from_str(r)...?)))
     m = re.match(r"^(?:Ok\()?Expr::index\((\w+),\s*Index::from\((.*)\)\)\)?$", a, re.S)
     if m and arg_of(m.group(1)) is not None:
